@@ -8,8 +8,8 @@ theorem step_run (P : Nat) (N : Int) (h : Admissible P N) (comps : Nat) (hc : 1 
     (hq : ((ids (traits P N) s (List.range comps)).all (fun i => i.1 == 0)) = true) :
     ∃ ws s' todo', encStep (traits P N) (List.range comps) s (xi :: rest) = .ok (ws, s', todo') ∧
       todo'.length < (xi :: rest).length ∧ LInv comps ((2 : Int) ^ P - 1) N line s' todo' ∧
-      ∀ tl, decStep (traits P N) (List.range comps) s (xi :: rest).length (writesBits ws ++ tl) =
-        .ok (s', todo'.length, tl) := by
+      (∀ tl, decStep (traits P N) (List.range comps) s (xi :: rest).length (writesBits ws ++ tl) =
+        .ok (s', todo'.length, tl)) ∧ WritesFit ws := by
   obtain ⟨hS, hline, hle, htodo, hclose⟩ := hinv
   obtain ⟨_, hM, hNear, _, _⟩ := traits_run_facts P N h
   have hlen_todo : (line.drop s.done.length).length = rest.length + 1 := by rw [← htodo]; simp
@@ -34,7 +34,7 @@ theorem step_run (P : Nat) (N : Int) (h : Admissible P N) (comps : Nat) (hc : 1 
     have := congrArg List.length htd
     rw [List.length_append, List.length_cons] at this
     exact this
-  obtain ⟨idx', ws, he, hi', hd⟩ := runlength_rt s.run.runIndex ((xi :: rest).takeWhile f).length
+  obtain ⟨idx', ws, he, hi', hd, hfw⟩ := runlength_rt s.run.runIndex ((xi :: rest).takeWhile f).length
     ((xi :: rest).length : Nat) hidx (by constructor <;> simp <;> omega) (by simp; omega)
   have hflag : ((xi :: rest).dropWhile f).isEmpty =
       ((((xi :: rest).takeWhile f).length : Int) == (((xi :: rest).length : Nat) : Int)) := by
@@ -54,7 +54,7 @@ theorem step_run (P : Nat) (N : Int) (h : Admissible P N) (comps : Nat) (hc : 1 
     simp only [List.append_nil, List.length_nil, Nat.add_zero] at htd hlens
     have hsplit := take_drop_split line s.done.length runPx [] (by rw [← htodo, List.append_nil, htd]) hle
     refine ⟨ws, LSt.mk s.prev (List.replicate runPx.length (leftPixel s) ++ s.done) s.pplf s.ctxs
-        (St.mk idx' s.run.ctx0 s.run.ctx1), [], rfl, by simp, ?_, ?_⟩
+        (St.mk idx' s.run.ctx0 s.run.ctx1), [], rfl, by simp, ?_, ?_, hfw⟩
     · refine ⟨⟨hS.1, ?_, hS.2.2.1, hS.2.2.2.1, hi', hi0, hr0, hi1, hr1⟩, hline, ?_, ?_, ?_⟩
       · intro p hp
         simp only [List.mem_append, List.mem_replicate] at hp
@@ -85,12 +85,12 @@ theorem step_run (P : Nat) (N : Int) (h : Admissible P N) (comps : Nat) (hc : 1 
     by_cases hcomps : (List.range comps).length > 1
     · -- sample-interleaved: every component with context 0
       simp only [hcomps, if_true]
-      obtain ⟨w1, ctx0', rec, he1, hinv1, hrit1, hlen1, hc1, ho1, hd1⟩ :=
+      obtain ⟨w1, ctx0', rec, he1, hinv1, hrit1, hlen1, hc1, ho1, hd1, hf1⟩ :=
         ints_roundtrip P N h comps idx' (leftPixel s) (pixAt s.prev (s.done.length + runPx.length)) xj hi'
           hleft habove hxj_ok (List.range comps) s.run.ctx0 (fun k hk => by simpa using hk) hi0 hr0
       rw [he1]
       refine ⟨ws ++ w1, LSt.mk s.prev (rec :: (List.replicate runPx.length (leftPixel s) ++ s.done)) s.pplf s.ctxs
-          (St.mk (decRunIndex idx') ctx0' s.run.ctx1), rest', rfl, by simp; omega, ?_, ?_⟩
+          (St.mk (decRunIndex idx') ctx0' s.run.ctx1), rest', rfl, by simp; omega, ?_, ?_, fit_append hfw hf1⟩
       · refine ⟨⟨hS.1, ?_, hS.2.2.1, hS.2.2.2.1, dec_range idx' hi', hinv1, hrit1, hi1, hr1⟩, hline, ?_, ?_, ?_⟩
         · intro p hp
           simp only [List.mem_cons, List.mem_append, List.mem_replicate] at hp
@@ -123,13 +123,13 @@ theorem step_run (P : Nat) (N : Int) (h : Admissible P N) (comps : Nat) (hc : 1 
         have hx' : isRun N (leftPixel s) xj (List.range 1) = false := by
           rw [← hf, hNear] at hxj_not; exact hxj_not
         rw [hx']; decide
-      obtain ⟨w1, run', r, he1, hinv1, hcl1, ho1, hd1⟩ :=
+      obtain ⟨w1, run', r, he1, hinv1, hcl1, ho1, hd1, hf1⟩ :=
         int0_roundtrip P N h idx' (cmp (leftPixel s) 0) (cmp (pixAt s.prev (s.done.length + runPx.length)) 0)
           (cmp xj 0) s.run hi' ⟨hidx, hi0, hr0, hi1, hr1⟩ (cmp_ok hleft 0 (by decide)) (cmp_ok habove 0 (by decide))
           (cmp_ok hxj_ok 0 (by decide)) hout
       rw [he1]
       refine ⟨ws ++ w1, LSt.mk s.prev ([r] :: (List.replicate runPx.length (leftPixel s) ++ s.done)) s.pplf s.ctxs run',
-        rest', rfl, by simp; omega, ?_, ?_⟩
+        rest', rfl, by simp; omega, ?_, ?_, fit_append hfw hf1⟩
       · refine ⟨⟨hS.1, ?_, hS.2.2.1, hS.2.2.2.1, hinv1⟩, hline, ?_, ?_, ?_⟩
         · intro p hp
           simp only [List.mem_cons, List.mem_append, List.mem_replicate] at hp
